@@ -33,6 +33,8 @@ type interp struct {
 	fixed map[string]bool
 	// match: optional fallback
 	match func(atom string, a asg) (bool, bool)
+	// expand: optional; atoms (calls of unexported helpers) to expand although match claims them
+	expand func(atom string) bool
 }
 
 func parseEq(atom string) (lhs, rhs string, ok bool) {
@@ -70,7 +72,43 @@ func parseCmp(atom string) (a, op, b string, ok bool) {
 	return
 }
 
+// swapEq returns `(b == a)` for an atom `(a == b)` (top-level operator), or "".
+func swapEq(atom string) string {
+	x, op, y, ok := parseCmp(atom)
+	if !ok || op != "==" {
+		return ""
+	}
+	return "(" + y + " == " + x + ")"
+}
+
+// env interprets atoms; equality atoms are tried in both operand orders (the extractor
+// canonicalises the order, rules may have been written either way).
 func (ip *interp) env(a asg) fw.Env {
+	one := ip.env1(a)
+	strict := *ip
+	strict.match = nil
+	explicit := strict.env1(a)
+	return func(atom string) (bool, bool) {
+		sw := swapEq(atom)
+		if v, ok := explicit(atom); ok {
+			return v, true
+		}
+		if sw != "" {
+			if v, ok := explicit(sw); ok {
+				return v, true
+			}
+		}
+		if v, ok := one(atom); ok {
+			return v, true
+		}
+		if sw != "" {
+			return one(sw)
+		}
+		return false, false
+	}
+}
+
+func (ip *interp) env1(a asg) fw.Env {
 	return func(atom string) (bool, bool) {
 		if v, ok := ip.fixed[atom]; ok {
 			return v, true
@@ -190,7 +228,16 @@ func compareTable(c *fw.Ctx, rule, what string, fn *ssa.Function, resIdx int, va
 		}
 	}
 	env0 := ip.env(first)
-	t.ExpandUnknown(func(atom string) bool { _, ok := env0(atom); return ok })
+	// atoms the rule does not know are expanded; a rule with a catch-all matcher names the
+	// helper atoms it wants expanded nevertheless (ip.expand)
+	t.ExpandUnknown(func(atom string) bool {
+		if ip.expand != nil && ip.expand(atom) && fw.AtomCallsUnexportedHelper(atom) {
+			return false
+		}
+		_, ok := env0(atom)
+		return ok
+	})
+	t.SplitBoolValues(func(atom string) bool { _, ok := env0(atom); return ok })
 	c.SawFn(fw.FuncName(fn))
 	mismatches := map[string]string{} // construct -> detail (deduplicated by code row + expectation)
 	unknown := map[string]bool{}
